@@ -6,11 +6,15 @@ PROPS = {
     'C02': dict(title='basic arithmetic correctly rounded', level='proof', engines=[]),
     'C10': dict(title='no more bits than the working precision', level='proof', engines=[]),
     'C05': dict(title='comparisons exact, equal numbers hash equally', level='proof', engines=[]),
+    'C11': dict(title='working precision restored on every exit', level='proof', engines=['precframe'],
+                no_units=True),
 }
 
 
 def targets_for(prop):
     out = []
+    if PROPS.get(prop, {}).get('no_units'):
+        return out
     for name, ct in C.BY_NAME.items():
         ps = set(ct.all_props)
         for _, _, p in ct.ensures:
